@@ -668,7 +668,9 @@ def _run_T(ctx, case, d, name, A, info, R, t, K, seed):
         snapX = O.snapshot(X)
         try:
             K0, gp = _make_guess(shape, R, ini, seed, warm=(build_holder(name, d, A), t) if ini["kind"] == "warm" else None)
-        except Exception:  # noqa: BLE001
+        except Exception as e:  # noqa: BLE001
+            if type(e).__name__ == "CaseTimeout":      # the engine's per-case wall-clock limit, not a library error
+                raise
             # the earlier call of a warm restart is itself a run of the given-guess trajectory with the same mode
             # order / optimised modes, where a failure is reported; here there is no guess to continue from
             ctx.count("warm_start_unavailable")
@@ -694,6 +696,8 @@ def _run_T(ctx, case, d, name, A, info, R, t, K, seed):
         try:
             (M, Minit, out), text = _execute(ctx, rec if record else X, R, ini, K0, t, k, opt)
         except Exception as e:  # noqa: BLE001
+            if type(e).__name__ == "CaseTimeout":      # the engine's per-case wall-clock limit, not a library error
+                raise
             # admissibility by conditioning is only known from the reference trajectory of the intended start
             adm_e = info.struct_ok
             U0e = gp[1] if gp else (_expected_random_init(shape, R, ini["s"]) if ini["kind"] == "random" else None)
